@@ -448,6 +448,9 @@ void run_c14(const RunOpts& o, Result& res) {
     if (results[i].flags & 1)
       res.fail("output_block", std::string("output_block/") + vt->name + "/" + inf.name,
                std::string(inf.name) + " wrote outside the block bound to an optional output", (long)i);
+    if (results[i].flags & 8)
+      res.fail("held_result_changed", std::string("held_result_changed/") + vt->name + "/" + inf.name,
+               std::string(inf.name) + ": a result bound to a const reference changed while other objects were used", (long)i);
   }
   // ---- diagnostics: informative, never a violation by themselves -----------------------------------------------
   // A function-local static that changes after its initialisation (or a guard taken twice) is what a
